@@ -4,6 +4,7 @@ import (
 	"context"
 	"fmt"
 	"math/rand"
+	"sync"
 	"testing"
 
 	"github.com/prometheus/client_golang/prometheus"
@@ -49,6 +50,11 @@ func workloadWorld(wl limiterWorkload) (aWorld, aReq) {
 		w.Blocks = append(w.Blocks, src)
 		w.Head.Series = append(w.Head.Series, src.Series...)
 	}
+	// receiver layout: one tenant holding everything, a second one holding the first block's series
+	w.Recv = aRecv{TLabel: "c", Tenants: []aTenant{{ID: "x", Series: w.Head.Series}, {ID: "e", Series: []aSeries{}}}}
+	if len(w.Blocks) > 0 {
+		w.Recv.Tenants[1].Series = w.Blocks[0].Series
+	}
 	req := aReq{Ms: []aMatcher{{N: "a", T: "EQ", K: "set", Alts: []string{"x"}}}, Rl: []string{}, Mint: 0, Maxt: chunkMax(1)}
 	return w, req
 }
@@ -83,13 +89,35 @@ func randLimitCfg(rnd *rand.Rand) map[string]any {
 		cl = limMode{Mode: "off"}
 	}
 	kind := "bucket"
-	if rnd.Intn(4) == 0 {
+	switch rnd.Intn(8) {
+	case 0, 1:
 		kind = "tsdbl"
+	case 2:
+		kind = "recvl"
 	}
 	return map[string]any{
 		"store": kind, "lazy": rnd.Intn(2) == 0, "batch": []int{0, 1, 2}[rnd.Intn(3)],
 		"rbatch": []int{0, 0, 1, 2}[rnd.Intn(4)], "sl": sl, "cl": cl,
+		"skip": rnd.Intn(5) == 0, "conc": []int{1, 1, 3}[rnd.Intn(3)],
 	}
+}
+
+// c09KnownFinding classifies a case from its input alone: the receiver layout (limited server in
+// front of a ProxyStore) with a limit configured below or at 1 -- the configurations in which the
+// request can exceed the limit. The proxy re-wraps the limited server's send error as Unknown.
+func c09KnownFinding(c vt.Case) string {
+	cfg := vt.Map(c["cfg"])
+	if vt.Str(cfg["store"]) != "recvl" {
+		return ""
+	}
+	tight := func(v any) bool {
+		m := decode[limMode](v)
+		return (m.Mode == "rel" && m.D < 0) || m.Mode == "abs"
+	}
+	if tight(cfg["sl"]) || tight(cfg["cl"]) {
+		return "limit-error-through-proxy-is-unknown"
+	}
+	return ""
 }
 
 func countObs(r world.SeriesResult) map[string]any {
@@ -150,7 +178,7 @@ func TestC09(t *testing.T) {
 			}
 		}
 	}
-	vt.Run(t, gen, nil, func(c vt.Case) vt.Event {
+	vt.Run(t, gen, c09KnownFinding, func(c vt.Case) vt.Event {
 		w := decode[aWorld](c["world"])
 		req := decode[aReq](c["req"])
 		cfg := vt.Map(c["cfg"])
@@ -161,8 +189,15 @@ func TestC09(t *testing.T) {
 			t.Fatalf("building world: %v", err)
 		}
 		ctx := context.Background()
+		skip, conc := vt.Bool(cfg["skip"]), vt.Int(cfg["conc"])
 		var unlSrv storepb.StoreServer
 		switch vt.Str(cfg["store"]) {
+		case "recvl":
+			rc, err := b.receiver()
+			if err != nil {
+				t.Fatalf("receiver: %v", err)
+			}
+			unlSrv = rc.Proxy
 		case "bucket":
 			unlSrv, err = b.bucketStore(world.BucketOpts{LazyPostings: lazy, BatchSize: batch})
 			if err != nil {
@@ -173,7 +208,7 @@ func TestC09(t *testing.T) {
 		default:
 			t.Fatalf("unknown store kind %v", cfg["store"])
 		}
-		unl := world.CallSeries(ctx, unlSrv, seriesReq(req, rb))
+		unl := world.CallSeries(ctx, unlSrv, seriesReqOpt(req, rb, skip, false))
 		uo := countObs(unl)
 		sl, cl := slm.value(uo["ns"].(int)), clm.value(uo["nc"].(int))
 		var limSrv storepb.StoreServer
@@ -186,8 +221,22 @@ func TestC09(t *testing.T) {
 		case "tsdbl":
 			limSrv = store.NewLimitedStoreServer(b.tsdbStore(0), prometheus.NewRegistry(),
 				store.SeriesSelectLimits{SeriesPerRequest: sl, SamplesPerRequest: cl * store.MaxSamplesPerChunk})
+		case "recvl": // cmd/thanos/receive.go: the limited server wraps the proxy over the tenants' stores
+			limSrv = store.NewLimitedStoreServer(unlSrv, prometheus.NewRegistry(),
+				store.SeriesSelectLimits{SeriesPerRequest: sl, SamplesPerRequest: cl * store.MaxSamplesPerChunk})
 		}
-		lim := world.CallSeries(ctx, limSrv, seriesReq(req, rb))
-		return vt.Event{"sl": int(sl), "cl": int(cl), "unl": uo, "lim": countObs(lim)}
+		// conc identical requests at the same time on the same limited store: a limit is per request,
+		// so every one of them is judged on its own
+		lims := make([]map[string]any, conc)
+		var wg sync.WaitGroup
+		for i := 0; i < conc; i++ {
+			wg.Add(1)
+			go func(i int) {
+				defer wg.Done()
+				lims[i] = countObs(world.CallSeries(ctx, limSrv, seriesReqOpt(req, rb, skip, false)))
+			}(i)
+		}
+		wg.Wait()
+		return vt.Event{"sl": int(sl), "cl": int(cl), "unl": uo, "lim": lims[0], "more": lims[1:]}
 	})
 }
